@@ -21,6 +21,11 @@ LegalMerge(all, out) ==
     LET x == SortStable(<<>>, all)
         r == RecoverDecisions(x, out)
     IN r.ok /\ (Cfg.scale = "K0" => LegalK0(x, 2, x[1], r.d, SumC(x), Cfg.dn, Cfg.dd))
+\* TLC integers are 32-bit and the mean comparisons multiply a sum by a count: layouts with larger numbers
+\* (long unit-weight prefixes) are outside what this module can evaluate and are skipped, not judged
+Lim == 40000
+SmallSeq(seq) == \A i \in 1 .. Len(seq) : seq[i][1] < Lim /\ seq[i][1] >= 0 /\ seq[i][2] < Lim /\ seq[i][2] > -Lim
+Small(e) == SmallSeq(e.pre.cs) /\ SmallSeq(e.pre.bl) /\ SmallSeq(e.post.cs) /\ SmallSeq(e.post.bl)
 Matches(e) ==
     LET pcs == Cs(e.pre.cs)  pbl == Cs(e.pre.bl)  qcs == Cs(e.post.cs)  qbl == Cs(e.post.bl) IN
     CASE e.op.name = "ins" ->
@@ -42,7 +47,7 @@ Init == l = 1 /\ h = 1
 Next == /\ l <= Len(Rec)
         /\ IF Rec[l].k = "hdr" THEN h' = l
            ELSE /\ h' = h
-                /\ IF Rec[l].k = "m" /\ Rec[l].res # "panic" /\ ~Matches(Rec[l]) THEN PrintT(<<"MDRIFT", Rec[l].tid>>) ELSE TRUE
+                /\ IF Rec[l].k = "m" /\ Rec[l].res # "panic" /\ Small(Rec[l]) /\ ~Matches(Rec[l]) THEN PrintT(<<"MDRIFT", Rec[l].tid>>) ELSE TRUE
         /\ l' = l + 1
 Spec == Init /\ [][Next]_<<l, h>>
 Done == PrintT(<<"CHECKED", TLCGet("stats").diameter - 1, Len(Rec)>>)
